@@ -543,3 +543,32 @@ impl<Args: Unpin> std::future::Future for NoRearmRepeat<Args> {
     }
   }
 }
+
+// ---------------------------------------------------------------- C20
+use std::collections::HashMap;
+use std::hash::Hash;
+pub struct BadGroupBy<O, D, K, S> { observer: O, discr: D, subjects: HashMap<K, S> }
+impl<D, K, S, Item, Err, O> Observer<Item, Err> for BadGroupBy<O, D, K, S>
+where
+  O: Observer<S, Err>,
+  D: FnMut(&Item) -> K,
+  K: Hash + Eq + Clone,
+  S: Clone + Default + Observer<Item, Err>,
+  Item: Clone,
+{
+  // forwards first, announces afterwards, and forwards twice for a new key
+  fn next(&mut self, value: Item) {
+    let key = (self.discr)(&value);
+    let fresh = !self.subjects.contains_key(&key);
+    let subject = self.subjects.entry(key).or_insert_with(S::default);
+    subject.next(value.clone());
+    if fresh {
+      self.observer.next(subject.clone());
+      subject.next(value);
+    }
+  }
+  fn error(self, err: Err) { self.observer.error(err) }
+  // groups never complete
+  fn complete(self) { self.observer.complete() }
+  fn is_finished(&self) -> bool { self.observer.is_finished() }
+}
